@@ -179,7 +179,10 @@ TNext ==
                   ELSE LET j == Judge(S, e) IN IF j = "ok" THEN TRUE ELSE Report("stepfail", j)
                /\ l' = l + 1 /\ UNCHANGED <<tid, verdict>> /\ UNCHANGED vars
           ELSE IF ~Pre(S, e.op, e.a)
-          THEN /\ verdict' = "ooc" /\ Report("ooc", "pre") /\ UNCHANGED <<tid, l>> /\ UNCHANGED vars
+          THEN \* out of contract: not judged; resynchronise on the logged state when that is a legal state
+               IF Legal(e.post)
+               THEN /\ Report("stepooc", "pre") /\ SetS(e.post) /\ UNCHANGED path /\ l' = l + 1 /\ UNCHANGED <<tid, verdict>>
+               ELSE /\ verdict' = "ooc" /\ Report("ooc", "pre") /\ UNCHANGED <<tid, l>> /\ UNCHANGED vars
           ELSE LET j == Judge(S, e) IN
                IF j = "ok"
                THEN /\ SetS(e.post) /\ UNCHANGED path /\ l' = l + 1 /\ UNCHANGED <<tid, verdict>>
@@ -220,8 +223,7 @@ def validate_traces(mod, constdefs, cfg_constants, traces, procs=16, timeout=360
             r = run_tlc(w.path, name + '.tla', name + '.cfg', workers=1, timeout=timeout)
             verdicts = {}
             for t_ in part:
-                if t_.get('mode') == 'fan':
-                    verdicts[t_['id']] = dict(code=None, l=0, clause='', stepfail=[], stepooc=[])
+                verdicts[t_['id']] = dict(code=None, l=0, clause='', stepfail=[], stepooc=[])
             for m in re.finditer(r'<<"VERDICT", "([^"]*)", (\d+), "(\w+)", "([^"]*)">>', r.out):
                 tid_, l_, code, clause = m.group(1), int(m.group(2)), m.group(3), m.group(4)
                 if code == 'stepfail':
